@@ -380,7 +380,13 @@ def flood_body(ctx, case):
     for _ in range(40):
         sim.step(["connect", how])
         sim.step(["call", "query_statusbyte", [], {}])
-    if first is None or sim.obj.err != first:
+    if first is None:
+        # this tree rode the fault out (e.g. it waits through more empty reads than the 30 of `late_reply`): no
+        # error was recorded, so there is nothing to preserve - how long a request waits is not C04's business
+        ctx.count("fault_did_not_latch")
+        ctx.record(case, sim.flags, nontrivial=False)
+        return
+    if sim.obj.err != first:
         sim.fail("after 40 further failed connects the recorded error is %r, the first one was %r"
                  % (sim.obj.err, first))
     ctx.record(case, sim.flags | {"flood_of_later_errors"}, nontrivial=True)
@@ -415,7 +421,11 @@ def reconnect_body(ctx, case):
     sim.step(["connect", "good"])
     for name in ("command", "query", "xy_move", "var_write", "query_steps", "pen_raise"):
         sim.step(["call", name, list(em.METHODS[name][1]), {}])
-    if first is None or sim.obj.err != first:
+    if first is None:
+        ctx.count("fault_did_not_latch")
+        ctx.record(case, sim.flags, nontrivial=False)
+        return
+    if sim.obj.err != first:
         sim.fail("after reconnecting the recorded error is %r, the first one was %r" % (sim.obj.err, first))
     ctx.record(case, sim.flags | {"reconnect_after_failed_attempts"}, nontrivial=True)
 
